@@ -1,15 +1,1440 @@
 package main
 
+// Replay of solver counterexamples against the real code.
+//
+// When an obligation of function F fails with a model (refutation mode, sat), the entry state of F in that model is
+// read back (get-value over the parameters and, level by level, over the objects, maps and slices reachable from them
+// in the entry heap), turned into Go values inside an in-package test that is injected with `go test -overlay` (nothing
+// is written into the repository), the real F is called on them, and the inputs before/after the call and the results
+// are dumped by reflection. The clauses of F's contract are then evaluated on the dump (concrete.go). A clause that is
+// definitely false on what the real code did is a confirmed failing input. Everything else (no model, function not
+// replayable, real code satisfies every evaluable clause on that input) is reported as no-failing-input-found.
+//
+// Only functions that are safe to call on arbitrary inputs are replayed: those marked `deterministic structural`
+// (their body was scanned: no effects, no ghost state) or carrying a `replay` line in their contract.
+
 import (
+	"bufio"
+	"bytes"
+	"context"
+	"encoding/json"
 	"fmt"
+	"go/types"
+	"io"
+	"os"
+	"os/exec"
+	"path/filepath"
+	"sort"
+	"strconv"
+	"strings"
+	"time"
+
+	"golang.org/x/tools/go/ssa"
 )
+
+type replayOutcome struct {
+	Attempted   bool                   `json:"attempted"`
+	Confirmed   bool                   `json:"confirmed"`
+	Reason      string                 `json:"reason,omitempty"`
+	ModelKind   string                 `json:"model_kind,omitempty"`
+	Function    string                 `json:"function,omitempty"`
+	Package     string                 `json:"package,omitempty"`
+	Inputs      map[string]interface{} `json:"inputs,omitempty"`
+	Observed    map[string]interface{} `json:"observed,omitempty"`
+	Clauses     []map[string]string    `json:"clauses,omitempty"`
+	FailedLabel string                 `json:"failed_clause,omitempty"`
+	TestSource  string                 `json:"test_source,omitempty"`
+	TestOutput  string                 `json:"test_output,omitempty"`
+}
+
+type pendItem struct {
+	term string
+	on   func(val *sx) []pendItem
+}
+
+type modelReader struct {
+	v       *Verifier
+	prefix  string // query up to and including (check-sat)
+	cands   []string
+	objects map[string]interface{}
+	runs    int
+	err     string
+	tooBig  bool
+	solver  int
+	proc    *exec.Cmd
+	stdin   io.WriteCloser
+	stdout  *bufio.Reader
+}
+
+func (m *modelReader) declared(sym string) bool {
+	return strings.Contains(m.prefix, "(declare-const "+sym+" ") || strings.Contains(m.prefix, "(declare-fun "+sym+" ")
+}
+
+// eval asks the solver for the values of terms in ONE model: the solver process is started once (query, check-sat) and
+// then answers get-value commands on its standard input.
+func (m *modelReader) eval(terms []string) []*sx {
+	if len(terms) == 0 {
+		return nil
+	}
+	m.runs++
+	if m.proc == nil {
+		if !m.start(m.solver) && !m.start(1-m.solver) {
+			if m.err == "" {
+				m.err = "model query: no solver reproduced a model"
+			}
+			return nil
+		}
+	}
+	ans, ok := m.ask("(get-value (" + strings.Join(terms, "\n ") + "))\n")
+	if !ok {
+		m.err = "model query: no answer to get-value"
+		return nil
+	}
+	ps := parseSx(ans)
+	if len(ps) == 0 || len(ps[0].kids) != len(terms) {
+		m.err = "model query: unexpected get-value answer: " + firstLines(ans, 2)
+		return nil
+	}
+	var out []*sx
+	for _, p := range ps[0].kids {
+		if len(p.kids) != 2 {
+			m.err = "model query: malformed pair"
+			return nil
+		}
+		out = append(out, p.kids[1])
+	}
+	return out
+}
+
+func (m *modelReader) start(si int) bool {
+	var cmd *exec.Cmd
+	if si == 0 {
+		cmd = exec.Command("z3-new", "-in", "-T:60")
+	} else {
+		cmd = exec.Command("cvc5", "--strings-exp", "--produce-models", "--tlimit=60000", "--lang=smt2", "-")
+	}
+	in, err1 := cmd.StdinPipe()
+	outp, err2 := cmd.StdoutPipe()
+	if err1 != nil || err2 != nil || cmd.Start() != nil {
+		return false
+	}
+	m.proc, m.stdin, m.stdout = cmd, in, bufio.NewReader(outp)
+	ans, ok := m.ask(m.prefix + "\n")
+	if !ok || strings.TrimSpace(ans) != "sat" {
+		m.stop()
+		m.err = "model query: solver answered " + firstLines(strings.TrimSpace(ans), 1)
+		return false
+	}
+	m.err = ""
+	m.solver = si
+	return true
+}
+
+func (m *modelReader) stop() {
+	if m.proc != nil {
+		m.stdin.Close()
+		m.proc.Process.Kill()
+		m.proc.Wait()
+		m.proc = nil
+	}
+}
+
+// ask sends text and reads one answer: an atom line (sat/unsat/unknown) or one balanced s-expression.
+func (m *modelReader) ask(text string) (string, bool) {
+	if _, err := io.WriteString(m.stdin, text); err != nil {
+		return "", false
+	}
+	type res struct {
+		s  string
+		ok bool
+	}
+	ch := make(chan res, 1)
+	go func() {
+		var sb strings.Builder
+		depth, inStr, started := 0, false, false
+		for {
+			c, err := m.stdout.ReadByte()
+			if err != nil {
+				ch <- res{sb.String(), false}
+				return
+			}
+			sb.WriteByte(c)
+			switch {
+			case inStr:
+				if c == '"' {
+					inStr = false
+				}
+			case c == '"':
+				inStr = true
+				started = true
+			case c == '(':
+				depth++
+				started = true
+			case c == ')':
+				depth--
+			case c == '\n':
+				if started && depth == 0 {
+					ch <- res{sb.String(), true}
+					return
+				}
+				if !started && strings.TrimSpace(sb.String()) != "" {
+					ch <- res{sb.String(), true}
+					return
+				}
+			default:
+				if c != ' ' && c != '\t' && c != '\r' && depth == 0 && !started {
+					// an atom answer such as sat: read to the end of the line
+					rest, _ := m.stdout.ReadString('\n')
+					sb.WriteString(rest)
+					ch <- res{sb.String(), true}
+					return
+				}
+			}
+			if started && depth == 0 && !inStr && c == ')' {
+				ch <- res{sb.String(), true}
+				return
+			}
+		}
+	}()
+	select {
+	case r := <-ch:
+		return r.s, r.ok
+	case <-time.After(30 * time.Second):
+		m.stop()
+		return "", false
+	}
+}
+
+func sxInt(s *sx) (int64, bool) {
+	if s.isAtom() {
+		n, err := strconv.ParseInt(s.atom, 10, 64)
+		return n, err == nil
+	}
+	if len(s.kids) == 2 && s.kids[0].atom == "-" {
+		n, ok := sxInt(s.kids[1])
+		return -n, ok
+	}
+	return 0, false
+}
+
+func sxString(s *sx) (string, bool) {
+	if !s.isAtom() || len(s.atom) < 2 || s.atom[0] != '"' {
+		return "", false
+	}
+	body := strings.ReplaceAll(s.atom[1:len(s.atom)-1], "\"\"", "\"")
+	var sb strings.Builder
+	for i := 0; i < len(body); i++ {
+		if body[i] == '\\' && i+2 < len(body) && body[i+1] == 'u' {
+			j := i + 2
+			hexs := ""
+			if body[j] == '{' {
+				k := strings.IndexByte(body[j:], '}')
+				if k > 0 {
+					hexs = body[j+1 : j+k]
+					j = j + k + 1
+				}
+			} else if j+4 <= len(body) {
+				hexs = body[j : j+4]
+				j += 4
+			}
+			if n, err := strconv.ParseUint(hexs, 16, 32); err == nil && hexs != "" {
+				if n < 256 {
+					sb.WriteByte(byte(n))
+				} else {
+					sb.WriteRune(rune(n))
+				}
+				i = j - 1
+				continue
+			}
+		}
+		sb.WriteByte(body[i])
+	}
+	return sb.String(), true
+}
+
+func typeKey(t types.Type) string {
+	return types.TypeString(t, func(p *types.Package) string { return p.Name() })
+}
+
+// mk builds the pending read for a value of Go type t denoted by SMT term `term`; set receives the input spec.
+func (m *modelReader) mk(t types.Type, term string, depth int, set func(interface{})) []pendItem {
+	v := m.v
+	zero := map[string]interface{}{"k": "zero"}
+	if depth > 6 {
+		set(zero)
+		return nil
+	}
+	if namedString(t) == "time.Time" {
+		return []pendItem{{term, func(val *sx) []pendItem {
+			n, _ := sxInt(val)
+			set(map[string]interface{}{"k": "time", "v": n})
+			return nil
+		}}}
+	}
+	switch u := t.Underlying().(type) {
+	case *types.Basic:
+		kind := ""
+		switch {
+		case u.Info()&types.IsBoolean != 0:
+			kind = "bool"
+		case u.Info()&types.IsString != 0:
+			kind = "string"
+		case u.Info()&types.IsInteger != 0:
+			kind = "int"
+		default:
+			set(zero)
+			return nil
+		}
+		return []pendItem{{term, func(val *sx) []pendItem {
+			switch kind {
+			case "bool":
+				set(map[string]interface{}{"k": "bool", "v": val.isAtom() && val.atom == "true"})
+			case "int":
+				n, _ := sxInt(val)
+				set(map[string]interface{}{"k": "int", "v": n})
+			case "string":
+				s, ok := sxString(val)
+				if !ok {
+					m.err = "cannot decode string value " + val.String()
+				}
+				set(map[string]interface{}{"k": "string", "v": s})
+			}
+			return nil
+		}}}
+	case *types.Pointer:
+		st, named := derefStruct(t)
+		if st == nil || named == nil {
+			set(zero)
+			return nil
+		}
+		return []pendItem{{term, func(val *sx) []pendItem {
+			n, _ := sxInt(val)
+			if n <= 0 {
+				set(map[string]interface{}{"k": "ptr", "ref": ""})
+				return nil
+			}
+			key := typeKey(named) + ":" + fmt.Sprint(n)
+			set(map[string]interface{}{"k": "ptr", "ref": key})
+			if _, done := m.objects[key]; done {
+				return nil
+			}
+			fields := map[string]interface{}{}
+			m.objects[key] = map[string]interface{}{"fields": fields}
+			return m.structFields(named, st, fmt.Sprint(n), depth+1, fields)
+		}}}
+	case *types.Struct:
+		// struct value held in a variable: modelled as a reference to an object
+		named, _ := types.Unalias(t).(*types.Named)
+		if named == nil {
+			set(zero)
+			return nil
+		}
+		return []pendItem{{term, func(val *sx) []pendItem {
+			n, _ := sxInt(val)
+			fields := map[string]interface{}{}
+			set(map[string]interface{}{"k": "struct", "fields": fields})
+			return m.structFields(named, u, fmt.Sprint(n), depth+1, fields)
+		}}}
+	case *types.Map:
+		ks := v.decls.sortOf(u.Key())
+		if ks != sString {
+			set(zero)
+			return nil
+		}
+		name := v.mapTypeName(u)
+		md, mv := smtIdent("MD_"+name)+"_0", smtIdent("MV_"+name)+"_0"
+		return []pendItem{{term, func(val *sx) []pendItem {
+			n, _ := sxInt(val)
+			if n <= 0 {
+				set(map[string]interface{}{"k": "map", "ref": ""})
+				return nil
+			}
+			key := "map[" + typeKey(u.Key()) + "]" + typeKey(u.Elem()) + ":" + fmt.Sprint(n)
+			set(map[string]interface{}{"k": "map", "ref": key})
+			if _, done := m.objects[key]; done {
+				return nil
+			}
+			obj := map[string]interface{}{"entries": []interface{}{}}
+			m.objects[key] = obj
+			if !m.declared(md) {
+				return nil
+			}
+			var out []pendItem
+			for _, cand := range m.cands {
+				cand := cand
+				lit := smtString(cand)
+				out = append(out, pendItem{"(select (select " + md + " " + fmt.Sprint(n) + ") " + lit + ")", func(dv *sx) []pendItem {
+					if !(dv.isAtom() && dv.atom == "true") {
+						return nil
+					}
+					entry := []interface{}{map[string]interface{}{"k": "string", "v": cand}, nil}
+					obj["entries"] = append(obj["entries"].([]interface{}), entry)
+					if !m.declared(mv) {
+						entry[1] = zero
+						return nil
+					}
+					return m.mk(u.Elem(), "(select (select "+mv+" "+fmt.Sprint(n)+") "+lit+")", depth+1, func(s interface{}) { entry[1] = s })
+				}})
+			}
+			return out
+		}}}
+	case *types.Slice:
+		ss := v.decls.sortOf(t)
+		if ss == sString {
+			// []byte
+			return []pendItem{{term, func(val *sx) []pendItem {
+				s, _ := sxString(val)
+				set(map[string]interface{}{"k": "bytes", "v": s})
+				return nil
+			}}}
+		}
+		if !isSliceSort(ss) {
+			set(zero)
+			return nil
+		}
+		return []pendItem{{"(len_" + ss + " " + term + ")", func(val *sx) []pendItem {
+			n, _ := sxInt(val)
+			if n < 0 {
+				n = 0
+			}
+			if n > 12 {
+				m.tooBig = true
+				n = 12
+			}
+			elems := make([]interface{}, n)
+			set(map[string]interface{}{"k": "slice", "e": elems})
+			var out []pendItem
+			for i := int64(0); i < n; i++ {
+				i := i
+				out = append(out, m.mk(u.Elem(), fmt.Sprintf("(select (el_%s %s) %d)", ss, term, i), depth+1, func(s interface{}) { elems[i] = s })...)
+			}
+			return out
+		}}}
+	}
+	set(zero)
+	return nil
+}
+
+func (m *modelReader) structFields(named *types.Named, st *types.Struct, ref string, depth int, fields map[string]interface{}) []pendItem {
+	v := m.v
+	var out []pendItem
+	for i := 0; i < st.NumFields(); i++ {
+		f := st.Field(i)
+		name := f.Name()
+		if v.isEmbeddedStructField(f.Type()) {
+			fn := "emb_" + typeShort(named) + "_" + f.Name()
+			inner, _ := types.Unalias(f.Type()).(*types.Named)
+			ist, _ := f.Type().Underlying().(*types.Struct)
+			if !m.declared(fn) || inner == nil || ist == nil || inner.Obj().Pkg() == nil || !v.isRepoPkg(inner.Obj().Pkg().Path()) {
+				continue
+			}
+			out = append(out, pendItem{"(" + fn + " " + ref + ")", func(val *sx) []pendItem {
+				n, _ := sxInt(val)
+				sub := map[string]interface{}{}
+				fields[name] = map[string]interface{}{"k": "struct", "fields": sub}
+				return m.structFields(inner, ist, fmt.Sprint(n), depth+1, sub)
+			}})
+			continue
+		}
+		hv := smtIdent("F_"+typeShort(named)+"_"+f.Name()) + "_0"
+		if !m.declared(hv) {
+			continue
+		}
+		out = append(out, m.mk(f.Type(), "(select "+hv+" "+ref+")", depth, func(s interface{}) { fields[name] = s })...)
+	}
+	return out
+}
+
+func stringLiteralsIn(text string, max int) []string {
+	seen := map[string]bool{}
+	var out []string
+	for i := 0; i < len(text); i++ {
+		if text[i] != '"' {
+			continue
+		}
+		j := i + 1
+		for j < len(text) {
+			if text[j] == '"' {
+				if j+1 < len(text) && text[j+1] == '"' {
+					j += 2
+					continue
+				}
+				break
+			}
+			j++
+		}
+		if j >= len(text) {
+			break
+		}
+		if s, ok := sxString(&sx{atom: text[i : j+1]}); ok && !seen[s] && len(s) < 200 {
+			seen[s] = true
+			out = append(out, s)
+		}
+		i = j
+	}
+	sort.Slice(out, func(a, b int) bool {
+		if len(out[a]) != len(out[b]) {
+			return len(out[a]) < len(out[b])
+		}
+		return out[a] < out[b]
+	})
+	if len(out) > max {
+		out = out[:max]
+	}
+	return out
+}
+
+func replayableContract(c *FuncContract) bool {
+	if c == nil || c.Extern || c.Iface || c.NoReturn {
+		return false
+	}
+	return strings.HasPrefix(c.Determ, "structural") || len(c.Replay) > 0
+}
 
 // tryReplay attempts to replay a solver model against the real code. Returns true if a failing input was confirmed.
 func tryReplay(v *Verifier, o *Obligation, replayPath, repo string) bool {
-	return false
+	out := replayObligation(v, o, repo)
+	// merge into the replay file
+	var m map[string]interface{}
+	if b, err := os.ReadFile(replayPath); err == nil {
+		json.Unmarshal(b, &m)
+	}
+	if m == nil {
+		m = map[string]interface{}{}
+	}
+	m["replay"] = out
+	b, _ := json.MarshalIndent(m, "", " ")
+	os.WriteFile(replayPath, b, 0o644)
+	return out.Confirmed
+}
+
+func findContract(v *Verifier, key string) *FuncContract {
+	for _, c := range v.cs.Order {
+		if c.Key == key && !c.Extern && !c.Iface {
+			return c
+		}
+	}
+	return nil
+}
+
+func replayObligation(v *Verifier, o *Obligation, repo string) *replayOutcome {
+	out := &replayOutcome{Function: o.Func}
+	c := findContract(v, o.Func)
+	if c == nil {
+		out.Reason = "not an obligation of a function body (lemma or global obligation)"
+		return out
+	}
+	if !replayableContract(c) {
+		out.Reason = "function is not replayable (it has effects, uses channels or ghost state, or is not marked `deterministic structural` / `replay`): the obligation and the solver's answer are the report"
+		return out
+	}
+	fn := v.functionOf(c)
+	if fn == nil || fn.Parent() != nil {
+		out.Reason = "closures are not replayed"
+		return out
+	}
+	qfile, model, solverIdx := o.File, o.RefuteModel, 0
+	if model == "" || !strings.HasSuffix(qfile, ".refute.smt2") || (len(o.ReplayAssume) > 0 && o.CandidateModel != "") {
+		qfile, model, solverIdx = o.CandidateFile, o.CandidateModel, o.CandidateSolver
+		out.ModelKind = "candidate: model of the failed obligation's query with its quantified assumptions dropped (validated only by the run on the real code)"
+	} else {
+		out.ModelKind = "model of the failed obligation's query (refutation mode: library spec functions interpreted)"
+	}
+	if model == "" || qfile == "" {
+		out.ModelKind = ""
+		out.Reason = "the solver gave no model for the failed obligation (" + o.Result + ")"
+		return out
+	}
+	qb, err := os.ReadFile(qfile)
+	if err != nil {
+		out.Reason = "query file missing"
+		return out
+	}
+	q := string(qb)
+	if i := strings.LastIndex(q, "(check-sat)"); i >= 0 {
+		q = q[:i+len("(check-sat)")]
+	}
+	out.Attempted = true
+	mr := &modelReader{v: v, prefix: q, objects: map[string]interface{}{}, solver: solverIdx}
+	defer mr.stop()
+	mr.cands = stringLiteralsIn(model, 30)
+	for _, s := range stringLiteralsIn(q, 30) {
+		dup := false
+		for _, c := range mr.cands {
+			if c == s {
+				dup = true
+			}
+		}
+		if !dup && len(mr.cands) < 40 {
+			mr.cands = append(mr.cands, s)
+		}
+	}
+	// the values the model gives to the arguments of `replay input` directives are read first: their strings are the
+	// most likely map keys
+	riSpecs := map[string][]interface{}{}
+	for _, ri := range c.ReplayInputs {
+		if ts, ok := o.ReplayArgs[ri.Param]; ok {
+			specs := mr.readTerms(ts)
+			if specs != nil {
+				riSpecs[ri.Param] = specs
+				var collect func(s interface{})
+				collect = func(s interface{}) {
+					if m, ok := s.(map[string]interface{}); ok {
+						if m["k"] == "string" {
+							if sv, _ := m["v"].(string); true {
+								mr.cands = append([]string{sv}, mr.cands...)
+							}
+						}
+						if es, ok := m["e"].([]interface{}); ok {
+							for _, e := range es {
+								collect(e)
+							}
+						}
+					}
+				}
+				for _, s := range specs {
+					collect(s)
+				}
+			}
+		}
+	}
+	names := sigParamNames(fn)
+	if len(c.ParamNames) == len(names) {
+		names = c.ParamNames
+	}
+	params := make([]interface{}, len(fn.Params))
+	var level []pendItem
+	for i, p := range fn.Params {
+		i := i
+		sym := "p_" + smtIdent(p.Name())
+		if p.Name() == "" || p.Name() == "_" {
+			sym = fmt.Sprintf("p_arg%d", i)
+		}
+		level = append(level, mr.mk(p.Type(), sym, 0, func(s interface{}) { params[i] = s })...)
+	}
+	for round := 0; round < 12 && len(level) > 0 && mr.err == ""; round++ {
+		var terms []string
+		for _, it := range level {
+			terms = append(terms, it.term)
+		}
+		vals := mr.eval(terms)
+		if vals == nil {
+			break
+		}
+		var next []pendItem
+		for i, it := range level {
+			next = append(next, it.on(vals[i])...)
+		}
+		level = next
+	}
+	if mr.err != "" {
+		out.Reason = mr.err
+		return out
+	}
+	if mr.tooBig {
+		out.Reason = "the model needs a slice longer than the replay builds"
+		return out
+	}
+	// `replay input` directives: parameter values computed from what the model says at the failing program point
+	for _, ri := range c.ReplayInputs {
+		ts, ok := o.ReplayArgs[ri.Param]
+		if !ok {
+			continue
+		}
+		pi := -1
+		for i, n := range names {
+			if n == ri.Param {
+				pi = i
+			}
+		}
+		if pi < 0 {
+			continue
+		}
+		_ = ts
+		specs, ok := riSpecs[ri.Param]
+		if !ok {
+			continue
+		}
+		env := &cenv{v: v, vars: map[string]interface{}{}}
+		call := &ECall{Fn: ri.Call.Fn}
+		bad := false
+		for i, s := range specs {
+			cv, ok := specToConcrete(s)
+			if !ok {
+				bad = true
+				break
+			}
+			nm := fmt.Sprintf("$a%d", i)
+			env.vars[nm] = cv
+			call.Args = append(call.Args, &EIdent{Name: nm})
+		}
+		if bad {
+			continue
+		}
+		val, ok := func() (r interface{}, ok bool) {
+			defer func() {
+				if p := recover(); p != nil {
+					if _, isU := p.(cunknown); isU {
+						ok = false
+						return
+					}
+					panic(p)
+				}
+			}()
+			return env.eval(call), true
+		}()
+		if !ok {
+			continue
+		}
+		if sp, ok := concreteToSpec(val); ok {
+			params[pi] = sp
+		}
+	}
+	for i := range params {
+		if params[i] == nil {
+			params[i] = map[string]interface{}{"k": "zero"}
+		}
+	}
+	out.Inputs = map[string]interface{}{"params": params, "names": names, "objects": mr.objects}
+	pkg := fnPkg(fn)
+	out.Package = pkg.Pkg.Path()
+	obs, src, testOut, err := runRealFunction(v, fn, out.Inputs, repo)
+	out.TestSource, out.TestOutput = src, testOut
+	if err != nil {
+		out.Reason = "replay run: " + err.Error()
+		return out
+	}
+	out.Observed = obs
+	if p, _ := obs["panic"].(string); p != "" {
+		out.Reason = "the real function panicked on the model's input (run-time panics are outside the contracts: partial correctness): " + p
+		return out
+	}
+	// evaluate the contract on what the real code did
+	env := buildEnv(v, pkg.Pkg, c, fn, names, obs)
+	if env == nil {
+		out.Reason = "cannot decode the dump of the real run"
+		return out
+	}
+	// preconditions must hold on the input, otherwise the model's input is not an admissible call
+	for _, r := range c.Requires {
+		t := env.evalTri(&ECall{Fn: "old", Args: []Expr{r.E}})
+		out.Clauses = append(out.Clauses, map[string]string{"kind": "requires", "label": r.Label, "clause": r.Src, "value": triString(t), "why": whyIf(t, env)})
+		if t != triT {
+			out.Reason = "precondition " + r.Label + " is not definitely true on the model's input (" + triString(t) + "): not an admissible call"
+			return out
+		}
+	}
+	for _, e := range append(append([]*Clause{}, c.Ensures...), c.ReplayChecks...) {
+		t := env.evalTri(e.E)
+		out.Clauses = append(out.Clauses, map[string]string{"kind": e.Kind, "label": e.Label, "clause": e.Src, "value": triString(t), "why": whyIf(t, env)})
+		if t == triF && !out.Confirmed && sharesProp(e.Props, c.Props, o.Props) {
+			out.Confirmed = true
+			out.FailedLabel = e.Label
+		}
+	}
+	if !out.Confirmed {
+		out.Reason = "the real function satisfies every evaluable postcondition on the model's input (the failed obligation is internal to the proof or the model is spurious under the abstractions)"
+	}
+	return out
+}
+
+func whyIf(t tri, env *cenv) string {
+	if t == triU {
+		return env.why
+	}
+	return ""
+}
+
+// ---- running the real function ----
+
+func goTypeString(t types.Type, pkg *types.Package) string {
+	return types.TypeString(t, func(p *types.Package) string {
+		if p == pkg {
+			return ""
+		}
+		return p.Name()
+	})
+}
+
+func runRealFunction(v *Verifier, fn *ssa.Function, inputs map[string]interface{}, repo string) (map[string]interface{}, string, string, error) {
+	pkg := fnPkg(fn).Pkg
+	var pkgDir string
+	for _, p := range v.pkgs {
+		if p.PkgPath == pkg.Path() && len(p.GoFiles) > 0 {
+			pkgDir = filepath.Dir(p.GoFiles[0])
+		}
+	}
+	if pkgDir == "" {
+		return nil, "", "", fmt.Errorf("package directory of %s not found", pkg.Path())
+	}
+	target := fn.Name()
+	if recv := fn.Signature.Recv(); recv != nil {
+		target = "(" + goTypeString(recv.Type(), pkg) + ")." + fn.Name()
+	}
+	// imports needed by the type strings are avoided: arguments are built by reflection from the function's own type
+	src := strings.ReplaceAll(replayTestTemplate, "PKGNAME", pkg.Name())
+	src = strings.ReplaceAll(src, "TARGET", target)
+	// the library's loggers are nil until one of its InitLog functions ran (every scipipe program does that first)
+	setup := ""
+	if obj := pkg.Scope().Lookup("InitLogError"); obj != nil {
+		if _, isFn := obj.(*types.Func); isFn {
+			setup = "InitLogError()"
+		}
+	}
+	src = strings.ReplaceAll(src, "/*SETUP*/", setup)
+	work, err := os.MkdirTemp("", "govc_replay_")
+	if err != nil {
+		return nil, src, "", err
+	}
+	defer os.RemoveAll(work)
+	testFile := filepath.Join(work, "zz_govc_replay_test.go")
+	os.WriteFile(testFile, []byte(src), 0o644)
+	inFile := filepath.Join(work, "in.json")
+	outFile := filepath.Join(work, "out.json")
+	ib, _ := json.Marshal(inputs)
+	os.WriteFile(inFile, ib, 0o644)
+	ov := map[string]interface{}{"Replace": map[string]string{filepath.Join(pkgDir, "zz_govc_replay_test.go"): testFile}}
+	ob, _ := json.Marshal(ov)
+	ovFile := filepath.Join(work, "overlay.json")
+	os.WriteFile(ovFile, ob, 0o644)
+	cwd := filepath.Join(work, "cwd")
+	os.MkdirAll(cwd, 0o755)
+	ctx, cancel := context.WithTimeout(context.Background(), 120*time.Second)
+	defer cancel()
+	cmd := exec.CommandContext(ctx, "go", "test", "-overlay", ovFile, "-vet=off", "-count=1", "-timeout", "60s", "-run", "^TestGovcReplay$", ".")
+	cmd.Dir = pkgDir
+	cmd.Env = append(os.Environ(), "GOFLAGS=-mod=mod", "GOPROXY=off", "GOSUMDB=off", "GOTOOLCHAIN=local",
+		"GOVC_REPLAY_IN="+inFile, "GOVC_REPLAY_OUT="+outFile, "GOVC_REPLAY_CWD="+cwd)
+	var buf bytes.Buffer
+	cmd.Stdout, cmd.Stderr = &buf, &buf
+	runErr := cmd.Run()
+	testOut := buf.String()
+	if len(testOut) > 4000 {
+		testOut = testOut[:4000]
+	}
+	b, err := os.ReadFile(outFile)
+	if err != nil {
+		return nil, src, testOut, fmt.Errorf("the replay test produced no output (%v)", runErr)
+	}
+	var obs map[string]interface{}
+	if err := json.Unmarshal(b, &obs); err != nil {
+		return nil, src, testOut, err
+	}
+	return obs, src, testOut, nil
+}
+
+// ---- decoding the dump ----
+
+type dumpDecoder struct {
+	objs map[int]*cstruct
+}
+
+func (d *dumpDecoder) val(x interface{}) interface{} {
+	m, ok := x.(map[string]interface{})
+	if !ok {
+		return copaque{}
+	}
+	switch m["k"] {
+	case "int":
+		f, _ := m["v"].(float64)
+		return int64(f)
+	case "string":
+		s, _ := m["v"].(string)
+		return s
+	case "bool":
+		b, _ := m["v"].(bool)
+		return b
+	case "nil":
+		return cnilT{}
+	case "ptr":
+		id, _ := m["id"].(float64)
+		return &cptr{int(id)}
+	case "struct":
+		return d.strct(m)
+	case "slice":
+		var out cseq
+		if es, ok := m["e"].([]interface{}); ok {
+			for _, e := range es {
+				out = append(out, d.val(e))
+			}
+		}
+		if out == nil {
+			out = cseq{}
+		}
+		return out
+	case "map":
+		id, _ := m["id"].(float64)
+		isNil, _ := m["nil"].(bool)
+		mv := &cmapv{id: int(id), isNil: isNil}
+		if es, ok := m["e"].([]interface{}); ok {
+			for _, e := range es {
+				if pair, ok := e.([]interface{}); ok && len(pair) == 2 {
+					mv.entries = append(mv.entries, [2]interface{}{d.val(pair[0]), d.val(pair[1])})
+				}
+			}
+		}
+		return mv
+	case "opaque":
+		isNil, _ := m["nil"].(bool)
+		return copaque{isNil}
+	}
+	return copaque{}
+}
+
+func (d *dumpDecoder) strct(m map[string]interface{}) *cstruct {
+	st := &cstruct{fields: map[string]interface{}{}, emb: map[string]bool{}}
+	if fs, ok := m["f"].(map[string]interface{}); ok {
+		for k, fv := range fs {
+			st.fields[k] = d.val(fv)
+		}
+	}
+	if es, ok := m["emb"].([]interface{}); ok {
+		for _, e := range es {
+			if s, ok := e.(string); ok {
+				st.emb[s] = true
+			}
+		}
+	}
+	return st
+}
+
+func decodeObjs(x interface{}) map[int]*cstruct {
+	d := &dumpDecoder{}
+	out := map[int]*cstruct{}
+	if m, ok := x.(map[string]interface{}); ok {
+		for k, ov := range m {
+			id, _ := strconv.Atoi(k)
+			if om, ok := ov.(map[string]interface{}); ok {
+				out[id] = d.strct(om)
+			}
+		}
+	}
+	return out
+}
+
+func buildEnv(v *Verifier, pkg *types.Package, c *FuncContract, fn *ssa.Function, names []string, obs map[string]interface{}) *cenv {
+	d := &dumpDecoder{}
+	pre, _ := obs["pre"].([]interface{})
+	post, _ := obs["post"].([]interface{})
+	res, _ := obs["results"].([]interface{})
+	if len(pre) != len(names) || len(post) != len(names) {
+		return nil
+	}
+	env := &cenv{v: v, pkg: pkg, vars: map[string]interface{}{}, old: map[string]interface{}{}}
+	if n, ok := obs["pre_ids"].(float64); ok {
+		env.preIDs = int(n)
+	}
+	env.objs = decodeObjs(obs["post_objs"])
+	env.oldObj = decodeObjs(obs["pre_objs"])
+	for i, n := range names {
+		env.vars[n] = d.val(post[i])
+		env.old[n] = d.val(pre[i])
+		// value parameters (strings, ints ...) keep their entry value in postconditions
+		switch env.old[n].(type) {
+		case string, int64, bool:
+			env.vars[n] = env.old[n]
+		}
+	}
+	rnames := sigResultNames(fn.Signature)
+	if len(c.ResNames) == len(rnames) {
+		rnames = c.ResNames
+	}
+	for i, n := range rnames {
+		if i < len(res) {
+			env.vars[n] = d.val(res[i])
+		}
+	}
+	if b, err := json.Marshal(obs); err == nil {
+		env.strs = stringLiteralsIn(strings.ReplaceAll(string(b), "\\\"", ""), 40)
+	}
+	env.strs = append(env.strs, "")
+	return env
 }
 
 func runReplay(path, repo string) int {
-	fmt.Println("replay file:", path)
+	b, err := os.ReadFile(path)
+	if err != nil {
+		fmt.Println("cannot read replay file:", err)
+		return 2
+	}
+	var m map[string]interface{}
+	if err := json.Unmarshal(b, &m); err != nil {
+		fmt.Println("cannot parse replay file:", err)
+		return 2
+	}
+	fmt.Printf("property:   %v\nobligation: %v\nclause:     %v\nresult:     %v (%v)\n", m["property"], m["obligation"], m["clause"], m["result"], m["solver"])
+	rp, _ := m["replay"].(map[string]interface{})
+	if rp == nil {
+		fmt.Println("no replay section: the obligation and the solver's output above are the report")
+		return 0
+	}
+	if att, _ := rp["attempted"].(bool); !att {
+		fmt.Println("not replayed:", rp["reason"])
+		return 0
+	}
+	inputs, _ := rp["inputs"].(map[string]interface{})
+	fn, _ := rp["function"].(string)
+	if inputs == nil {
+		fmt.Println("not replayed:", rp["reason"])
+		return 0
+	}
+	// run the recorded input against the current tree again
+	v, err := loadVerifier(repo)
+	if err != nil {
+		fmt.Println("INTERNAL-ERROR load:", err)
+		return 3
+	}
+	c := findContract(v, fn)
+	if c == nil {
+		fmt.Println("function no longer under contract:", fn)
+		return 2
+	}
+	f := v.functionOf(c)
+	obs, _, testOut, err := runRealFunction(v, f, inputs, repo)
+	if err != nil {
+		fmt.Println("replay run failed:", err)
+		fmt.Println(testOut)
+		return 2
+	}
+	names, _ := inputs["names"].([]interface{})
+	var ns []string
+	for _, n := range names {
+		ns = append(ns, fmt.Sprint(n))
+	}
+	ib, _ := json.MarshalIndent(map[string]interface{}{"params": inputs["params"], "objects": inputs["objects"]}, "", " ")
+	fmt.Printf("input (parameters %v):\n%s\n", ns, ib)
+	rb, _ := json.MarshalIndent(obs["results"], "", " ")
+	fmt.Printf("results of the real %s:\n%s\n", fn, rb)
+	env := buildEnv(v, fnPkg(f).Pkg, c, f, ns, obs)
+	if env == nil {
+		fmt.Println("cannot decode the dump")
+		return 2
+	}
+	bad := 0
+	for _, e := range append(append([]*Clause{}, c.Ensures...), c.ReplayChecks...) {
+		t := env.evalTri(e.E)
+		fmt.Printf("  %-11s %-28s %-8s %s\n", e.Kind, e.Label, triString(t), e.Src)
+		if t == triF {
+			bad++
+		}
+	}
+	if bad > 0 {
+		fmt.Printf("REPLAY-FAILS: the real code violates %d postcondition(s) on this input\n", bad)
+		return 1
+	}
+	fmt.Println("REPLAY-PASSES: the real code satisfies every evaluable postcondition on this input")
 	return 0
+}
+
+const replayTestTemplate = `package PKGNAME
+
+// generated by govc replay: injected with go test -overlay, never written into the repository
+
+import (
+	"encoding/json"
+	"fmt"
+	"os"
+	"reflect"
+	"testing"
+	"time"
+	"unsafe"
+)
+
+type govcBuilder struct {
+	objects map[string]interface{}
+	built   map[string]reflect.Value
+}
+
+func (b *govcBuilder) set(dst reflect.Value, v reflect.Value) {
+	if !dst.CanSet() {
+		dst = reflect.NewAt(dst.Type(), unsafe.Pointer(dst.UnsafeAddr())).Elem()
+	}
+	dst.Set(v)
+}
+
+func (b *govcBuilder) fill(dst reflect.Value, spec interface{}) {
+	m, ok := spec.(map[string]interface{})
+	if !ok {
+		return
+	}
+	if !dst.CanSet() {
+		dst = reflect.NewAt(dst.Type(), unsafe.Pointer(dst.UnsafeAddr())).Elem()
+	}
+	switch m["k"] {
+	case "int":
+		f, _ := m["v"].(float64)
+		switch dst.Kind() {
+		case reflect.Int, reflect.Int8, reflect.Int16, reflect.Int32, reflect.Int64:
+			dst.SetInt(int64(f))
+		case reflect.Uint, reflect.Uint8, reflect.Uint16, reflect.Uint32, reflect.Uint64:
+			dst.SetUint(uint64(f))
+		}
+	case "string":
+		s, _ := m["v"].(string)
+		if dst.Kind() == reflect.String {
+			dst.SetString(s)
+		}
+	case "bytes":
+		s, _ := m["v"].(string)
+		if dst.Kind() == reflect.Slice {
+			dst.SetBytes([]byte(s))
+		}
+	case "time":
+		f, _ := m["v"].(float64)
+		if dst.Type() == reflect.TypeOf(time.Time{}) {
+			dst.Set(reflect.ValueOf(time.Unix(0, int64(f))))
+		}
+	case "bool":
+		v, _ := m["v"].(bool)
+		if dst.Kind() == reflect.Bool {
+			dst.SetBool(v)
+		}
+	case "slice":
+		es, _ := m["e"].([]interface{})
+		if dst.Kind() == reflect.Slice {
+			s := reflect.MakeSlice(dst.Type(), len(es), len(es))
+			for i, e := range es {
+				b.fill(s.Index(i), e)
+			}
+			dst.Set(s)
+		}
+	case "struct":
+		fs, _ := m["fields"].(map[string]interface{})
+		b.fillStruct(dst, fs)
+	case "ptr":
+		ref, _ := m["ref"].(string)
+		if ref == "" || dst.Kind() != reflect.Ptr {
+			return
+		}
+		key := dst.Type().String() + "@" + ref
+		if v, ok := b.built[key]; ok {
+			dst.Set(v)
+			return
+		}
+		p := reflect.New(dst.Type().Elem())
+		b.built[key] = p
+		dst.Set(p)
+		if obj, ok := b.objects[ref].(map[string]interface{}); ok {
+			fs, _ := obj["fields"].(map[string]interface{})
+			b.fillStruct(p.Elem(), fs)
+		}
+	case "map":
+		ref, _ := m["ref"].(string)
+		if ref == "" || dst.Kind() != reflect.Map {
+			return
+		}
+		key := dst.Type().String() + "@" + ref
+		if v, ok := b.built[key]; ok {
+			dst.Set(v)
+			return
+		}
+		mp := reflect.MakeMap(dst.Type())
+		b.built[key] = mp
+		dst.Set(mp)
+		if obj, ok := b.objects[ref].(map[string]interface{}); ok {
+			es, _ := obj["entries"].([]interface{})
+			for _, e := range es {
+				pair, ok := e.([]interface{})
+				if !ok || len(pair) != 2 {
+					continue
+				}
+				k := reflect.New(dst.Type().Key()).Elem()
+				b.fill(k, pair[0])
+				v := reflect.New(dst.Type().Elem()).Elem()
+				b.fill(v, pair[1])
+				mp.SetMapIndex(k, v)
+			}
+		}
+	}
+}
+
+func (b *govcBuilder) fillStruct(dst reflect.Value, fs map[string]interface{}) {
+	if dst.Kind() != reflect.Struct {
+		return
+	}
+	for i := 0; i < dst.NumField(); i++ {
+		if spec, ok := fs[dst.Type().Field(i).Name]; ok {
+			b.fill(dst.Field(i), spec)
+		}
+	}
+}
+
+type govcDumper struct {
+	ids  map[uintptr]int
+	objs map[string]interface{}
+}
+
+func (d *govcDumper) id(p uintptr) int {
+	if n, ok := d.ids[p]; ok {
+		return n
+	}
+	n := len(d.ids) + 1
+	d.ids[p] = n
+	return n
+}
+
+func (d *govcDumper) dump(v reflect.Value, depth int) interface{} {
+	if depth > 8 {
+		return map[string]interface{}{"k": "opaque"}
+	}
+	switch v.Kind() {
+	case reflect.String:
+		return map[string]interface{}{"k": "string", "v": v.String()}
+	case reflect.Int, reflect.Int8, reflect.Int16, reflect.Int32, reflect.Int64:
+		return map[string]interface{}{"k": "int", "v": v.Int()}
+	case reflect.Uint, reflect.Uint8, reflect.Uint16, reflect.Uint32, reflect.Uint64:
+		return map[string]interface{}{"k": "int", "v": v.Uint()}
+	case reflect.Bool:
+		return map[string]interface{}{"k": "bool", "v": v.Bool()}
+	case reflect.Ptr:
+		if v.IsNil() {
+			return map[string]interface{}{"k": "nil"}
+		}
+		id := d.id(v.Pointer())
+		key := fmt.Sprint(id)
+		if _, done := d.objs[key]; !done && v.Elem().Kind() == reflect.Struct {
+			d.objs[key] = map[string]interface{}{}
+			d.objs[key] = d.dumpStruct(v.Elem(), depth+1)
+		}
+		return map[string]interface{}{"k": "ptr", "id": id}
+	case reflect.Struct:
+		if v.Type() == reflect.TypeOf(time.Time{}) {
+			if v.CanAddr() {
+				tv := *(*time.Time)(unsafe.Pointer(v.UnsafeAddr()))
+				return map[string]interface{}{"k": "int", "v": tv.UnixNano()}
+			}
+			if v.CanInterface() {
+				return map[string]interface{}{"k": "int", "v": v.Interface().(time.Time).UnixNano()}
+			}
+			return map[string]interface{}{"k": "opaque"}
+		}
+		return d.dumpStruct(v, depth+1)
+	case reflect.Slice:
+		if v.Type().Elem().Kind() == reflect.Uint8 {
+			return map[string]interface{}{"k": "string", "v": string(v.Bytes())}
+		}
+		var es []interface{}
+		for i := 0; i < v.Len(); i++ {
+			es = append(es, d.dump(v.Index(i), depth+1))
+		}
+		return map[string]interface{}{"k": "slice", "e": es, "nil": v.IsNil()}
+	case reflect.Map:
+		if v.IsNil() {
+			return map[string]interface{}{"k": "map", "id": 0, "nil": true}
+		}
+		var es []interface{}
+		it := v.MapRange()
+		for it.Next() {
+			es = append(es, []interface{}{d.dump(it.Key(), depth+1), d.dump(it.Value(), depth+1)})
+		}
+		return map[string]interface{}{"k": "map", "id": d.id(v.Pointer()), "nil": false, "e": es}
+	case reflect.Interface:
+		if v.IsNil() {
+			return map[string]interface{}{"k": "nil"}
+		}
+		return map[string]interface{}{"k": "opaque", "nil": false}
+	case reflect.Chan, reflect.Func, reflect.UnsafePointer:
+		return map[string]interface{}{"k": "opaque", "nil": v.IsNil()}
+	}
+	return map[string]interface{}{"k": "opaque"}
+}
+
+func (d *govcDumper) dumpStruct(v reflect.Value, depth int) map[string]interface{} {
+	fs := map[string]interface{}{}
+	var emb []interface{}
+	if v.Type().PkgPath() == "sync" || v.Type().PkgPath() == "time" {
+		return map[string]interface{}{"k": "struct", "f": fs, "emb": emb}
+	}
+	for i := 0; i < v.NumField(); i++ {
+		f := v.Type().Field(i)
+		fs[f.Name] = d.dump(v.Field(i), depth+1)
+		if f.Anonymous {
+			emb = append(emb, f.Name)
+		}
+	}
+	return map[string]interface{}{"k": "struct", "f": fs, "emb": emb}
+}
+
+func TestGovcReplay(t *testing.T) {
+	raw, err := os.ReadFile(os.Getenv("GOVC_REPLAY_IN"))
+	if err != nil {
+		t.Fatal(err)
+	}
+	var in struct {
+		Params  []interface{}          ` + "`json:\"params\"`" + `
+		Objects map[string]interface{} ` + "`json:\"objects\"`" + `
+	}
+	if err := json.Unmarshal(raw, &in); err != nil {
+		t.Fatal(err)
+	}
+	if cwd := os.Getenv("GOVC_REPLAY_CWD"); cwd != "" {
+		os.Chdir(cwd)
+	}
+	/*SETUP*/
+	fn := reflect.ValueOf(TARGET)
+	ft := fn.Type()
+	b := &govcBuilder{objects: in.Objects, built: map[string]reflect.Value{}}
+	args := make([]reflect.Value, ft.NumIn())
+	for i := range args {
+		args[i] = reflect.New(ft.In(i)).Elem()
+		if i < len(in.Params) {
+			b.fill(args[i], in.Params[i])
+		}
+	}
+	d := &govcDumper{ids: map[uintptr]int{}, objs: map[string]interface{}{}}
+	out := map[string]interface{}{}
+	var pre []interface{}
+	for _, a := range args {
+		pre = append(pre, d.dump(a, 0))
+	}
+	out["pre"] = pre
+	out["pre_objs"] = d.objs
+	out["pre_ids"] = len(d.ids)
+	var results []reflect.Value
+	func() {
+		defer func() {
+			if r := recover(); r != nil {
+				out["panic"] = fmt.Sprint(r)
+			}
+		}()
+		if ft.IsVariadic() {
+			results = fn.CallSlice(args)
+		} else {
+			results = fn.Call(args)
+		}
+	}()
+	d2 := &govcDumper{ids: d.ids, objs: map[string]interface{}{}}
+	var post, res []interface{}
+	for _, a := range args {
+		post = append(post, d2.dump(a, 0))
+	}
+	for _, r := range results {
+		res = append(res, d2.dump(r, 0))
+	}
+	out["post"] = post
+	out["results"] = res
+	out["post_objs"] = d2.objs
+	enc, _ := json.Marshal(out)
+	if err := os.WriteFile(os.Getenv("GOVC_REPLAY_OUT"), enc, 0o644); err != nil {
+		t.Fatal(err)
+	}
+}
+`
+
+// sharesProp: does a clause (its own property tags, else those of its function) belong to one of the obligation's properties?
+func sharesProp(clauseProps, fnProps, oblProps []string) bool {
+	ps := clauseProps
+	if len(ps) == 0 {
+		ps = fnProps
+	}
+	if len(oblProps) == 0 {
+		return true
+	}
+	for _, a := range ps {
+		for _, b := range oblProps {
+			if a == b {
+				return true
+			}
+		}
+	}
+	return false
+}
+
+func specToConcrete(s interface{}) (interface{}, bool) {
+	m, ok := s.(map[string]interface{})
+	if !ok {
+		return nil, false
+	}
+	switch m["k"] {
+	case "string", "bytes":
+		v, _ := m["v"].(string)
+		return v, true
+	case "int":
+		switch n := m["v"].(type) {
+		case int64:
+			return n, true
+		case float64:
+			return int64(n), true
+		}
+		return int64(0), true
+	case "bool":
+		v, _ := m["v"].(bool)
+		return v, true
+	case "slice":
+		es, _ := m["e"].([]interface{})
+		out := cseq{}
+		for _, e := range es {
+			cv, ok := specToConcrete(e)
+			if !ok {
+				return nil, false
+			}
+			out = append(out, cv)
+		}
+		return out, true
+	}
+	return nil, false
+}
+
+func concreteToSpec(v interface{}) (interface{}, bool) {
+	switch x := v.(type) {
+	case string:
+		return map[string]interface{}{"k": "string", "v": x}, true
+	case int64:
+		return map[string]interface{}{"k": "int", "v": x}, true
+	case bool:
+		return map[string]interface{}{"k": "bool", "v": x}, true
+	case cseq:
+		var es []interface{}
+		for _, e := range x {
+			s, ok := concreteToSpec(e)
+			if !ok {
+				return nil, false
+			}
+			es = append(es, s)
+		}
+		return map[string]interface{}{"k": "slice", "e": es}, true
+	}
+	return nil, false
+}
+
+// readTerms reads the values the model gives to a list of typed terms.
+func (m *modelReader) readTerms(ts []Term) []interface{} {
+	specs := make([]interface{}, len(ts))
+	var lvl []pendItem
+	for i, t := range ts {
+		i := i
+		if t.T == nil {
+			switch t.Sort {
+			case sString:
+				t.T = types.Typ[types.String]
+			case sInt:
+				t.T = types.Typ[types.Int]
+			case sBool:
+				t.T = types.Typ[types.Bool]
+			}
+		}
+		if t.T == nil {
+			continue
+		}
+		lvl = append(lvl, m.mk(t.T, t.S, 0, func(s interface{}) { specs[i] = s })...)
+	}
+	for round := 0; round < 6 && len(lvl) > 0 && m.err == ""; round++ {
+		var terms []string
+		for _, it := range lvl {
+			terms = append(terms, it.term)
+		}
+		vals := m.eval(terms)
+		if vals == nil {
+			return nil
+		}
+		var next []pendItem
+		for i, it := range lvl {
+			next = append(next, it.on(vals[i])...)
+		}
+		lvl = next
+	}
+	if m.err != "" {
+		return nil
+	}
+	return specs
 }
